@@ -676,14 +676,48 @@ class Interp:
             if not self.truth(self.ev(s.test, env)):
                 raise Raised(AssertionError(ast.unparse(s.test)))
         elif isinstance(s, ast.With):
+            managers = []
             for item in s.items:
                 ctx_src = ast.unparse(item.context_expr)
                 if ctx_src.startswith('Progress('):
                     if item.optional_vars is not None:
                         self.assign(item.optional_vars, DummyProgress(), env)
-                else:
+                    continue
+                # a context manager object built from concrete values (e.g. a @contextmanager helper that turns one
+                # exception into another): entered and left natively, the body is interpreted
+                cm = self.ev(item.context_expr, env)
+                if anysym(cm) or not (hasattr(cm, '__enter__') and hasattr(cm, '__exit__')):
                     raise OutsideSubset(f'with {ctx_src[:40]}')
-            self.block(s.body, env)
+                try:
+                    entered = cm.__enter__()
+                except Exception as exc:
+                    raise Raised(exc) from None
+                managers.append(cm)
+                if item.optional_vars is not None:
+                    self.assign(item.optional_vars, entered, env)
+            try:
+                self.block(s.body, env)
+            except Raised as r:
+                exc = r.exc
+                for cm in reversed(managers):
+                    try:
+                        if cm.__exit__(type(exc), exc, None):
+                            exc = None
+                            break
+                    except Exception as exc2:
+                        exc = exc2
+                if exc is not None:
+                    raise Raised(exc) from None
+            except (Ret, _Break, _Continue):
+                for cm in reversed(managers):
+                    cm.__exit__(None, None, None)
+                raise
+            else:
+                for cm in reversed(managers):
+                    try:
+                        cm.__exit__(None, None, None)
+                    except Exception as exc2:
+                        raise Raised(exc2) from None
         elif isinstance(s, ast.Delete):
             for t in s.targets:
                 if isinstance(t, ast.Subscript):
